@@ -36,32 +36,40 @@ def cfg(mode, init, cases, cfgs, depth, emit, invs=True):
 
 # ---- interpretation gamma: pixel token t -> a * t + b (injective; exact in float32 / int16; linear, so block means of
 #      tokens map to block means of values) ------------------------------------------------------------------------
-def affine(aseed, dtype, maxabs):
+def affine(aseed, dtype, trange):
+    tmin, tmax = trange
     rng = random.Random(aseed)
     if dtype == "i16":
-        amax = max(1, min(3, 30000 // max(1, maxabs) - 1))
-        a = rng.choice([x for x in (-3, -2, -1, 1, 2, 3) if abs(x) <= amax])
+        half = (tmax - tmin + 1) // 2 + 1
+        a = rng.choice([x for x in (-3, -2, -1, 1, 2, 3) if abs(x) * half <= 30000])
         b = rng.choice([0, 0, 5, -11, 100])
+        if max(abs(a * tmin + b), abs(a * tmax + b)) > 32000:
+            b = -a * ((tmin + tmax) // 2) + rng.choice([0, 3, -8])          # centre the values in the int16 range
+        if max(abs(a * tmin + b), abs(a * tmax + b)) > 32700:
+            raise core.MachineryError("tokens %d..%d do not fit int16" % (tmin, tmax))
     else:
         a = rng.choice([0.25, -0.25, 1.5, -1.0, 1.0, 3.0, 0.125])
         b = rng.choice([0.0, 0.5, -7.25, 1024.0])
     return a, b
 
 
-def max_abs_token(rec):
-    m = 0
+def token_range(recs):
+    lo, hi = [0], [0]
 
     def walk(x):
-        nonlocal m
         if isinstance(x, list):
-            for y in x:
-                walk(y)
-        elif isinstance(x, int) and not isinstance(x, bool):
-            m = max(m, abs(x))
-    walk(rec["inp"].get("arr", []))
-    if "doc" in rec["inp"]:
-        walk(rec["inp"]["doc"]["data"])
-    return m
+            if x and isinstance(x[0], int):
+                lo[0] = min(lo[0], min(x))
+                hi[0] = max(hi[0], max(x))
+            else:
+                for y in x:
+                    walk(y)
+    for rec in recs:
+        walk(rec["inp"].get("arr", []))
+        if "doc" in rec["inp"]:
+            walk(rec["inp"]["doc"]["data"])
+        walk(rec["res"]["ret"])
+    return lo[0], hi[0]
 
 
 def to_array(nested, ab, dtype):
@@ -248,7 +256,7 @@ def run_chain(ctx, recs, variant, aseed, live=True):
     instead, so that the sequence runs through the library's real outputs."""
     case = {"kind": "chain", "recs": recs, "variant": variant, "aseed": aseed, "live": live}
     dtype = recs[0]["dtype"]
-    ab = affine(aseed, dtype, max(max_abs_token(r) for r in recs))
+    ab = affine(aseed, dtype, token_range(recs))
     rng = random.Random(aseed * 31 + variant)
     prev = None
     root = fresh_dir(ctx, "ch")
@@ -422,12 +430,12 @@ def run(ctx):
 
     if not only or "script" in only:
         rng = ctx.rng
-        batches = ctx.pick([(60, 8, 14, 4)], [(500, 10, 16, 5), (120, 25, 40, 4), (30, 25, 40, 3)])
+        batches = ctx.pick([(60, 8, 14, 4)], [(2500, 10, 16, 5), (500, 25, 40, 4), (80, 25, 40, 3)])
         nchain = 0
         for bi, (count, nmax, smax, maxops) in enumerate(batches):
             cases = [gen_case(rng, nmax, smax, maxops) for _ in range(count)]
             if bi == len(batches) - 1 and not ctx.quick:
-                for c in cases[:10]:
+                for c in cases[:20]:
                     c["n"] = 25                                       # the upper end of the quantifier
                     c["ops"] = [o for o in c["ops"][:1] if o["name"] in ("flip", "crop", "bin", "split")] or \
                         [{"name": "flip", "axes": ["z", "x"], "io": "xyz", "oo": "zyx", "src": "file", "outf": True}]
